@@ -27,6 +27,12 @@ def test_list(wt, crates):
 def main():
     seed, wt, name = sys.argv[1], sys.argv[2], sys.argv[3]
     props = sys.argv[4:]
+    if os.path.abspath(seed).startswith(os.path.abspath(wt) + os.sep):
+        # the worktree is cleaned below (git clean): never leave the only copy of a seed inside it
+        keep = os.path.join('/var/tmp', 'seed_in_' + name)
+        shutil.rmtree(keep, ignore_errors=True)
+        shutil.copytree(seed, keep)
+        seed = keep
     meta = json.load(open(os.path.join(seed, 'meta.json')))
     patch = os.path.join(seed, 'patch.diff')
     demo_src = open(os.path.join(seed, 'demo.rs')).read()
